@@ -194,7 +194,18 @@ func init() {
 			}
 			return nilErr()
 		}
-		return walk(ar, root)
+		if r := walk(ar, root); !isNilValue(r) {
+			return r
+		}
+		// files with symbolic names the harness placed below the root (trace mode)
+		for _, f := range w.WalkExtra {
+			fi := Iface{T: m.extType("fileinfo"), V: &Ext{Kind: "fileinfo", F: map[string]Value{"isdir": false, "name": f}}}
+			r := m.callValue(cb, []Value{f, fi, nilErr()}, nil)
+			if !isNilValue(r) {
+				return r
+			}
+		}
+		return nilErr()
 	})
 	reg("path/filepath.Glob", func(m *Machine, fn *ssa.Function, a []Value) Value {
 		w := m.Env
